@@ -271,3 +271,37 @@ func VerifC13Render() {
 	}
 	nd.Reach("C13.render")
 }
+
+// VerifC13Long: the same for long literal text (around 4 KiB, 8 KiB and 64 KiB, where buffering
+// strategies change): a left hyphen removes the whitespace the text ends in, a right hyphen the
+// whitespace the next text starts with, and nothing else; the last and first bytes are chosen by
+// the solver.
+func VerifC13Long() {
+	n := []int{4095, 4096, 8191, 8192, 8193, 65536}[nd.Choice(6)]
+	nd.Bound("C13.long_text_bytes", 65536)
+	body := make([]byte, n-4)
+	for i := range body {
+		body[i] = 'a' + byte(i%23)
+	}
+	head, tail := nd.StringFrom(2, " \na"), nd.StringFrom(2, " \na")
+	long1 := head + string(body) + tail
+	ps := []c13Piece{{kind: 0, text: long1}, {kind: 1, args: "w", trimL: nd.Bool(), trimR: nd.Bool()}, {kind: 0, text: long1}, {kind: 2, name: "nop", trimL: nd.Bool(), trimR: nd.Bool()}, {kind: 0, text: " z"}}
+	c := c13Config()
+	got, err := c13Render(c, c13Tokens(ps, true), map[string]any{"w": "W"})
+	nd.Assert(err == nil, "long-render-no-error")
+	t0, t1, t2 := long1, long1, " z"
+	if ps[1].trimL {
+		t0 = c13TrimRight(t0)
+	}
+	if ps[1].trimR {
+		t1 = c13TrimLeft(t1)
+	}
+	if ps[3].trimL {
+		t1 = c13TrimRight(t1)
+	}
+	if ps[3].trimR {
+		t2 = c13TrimLeft(t2)
+	}
+	nd.Assert(got == t0+"W"+t1+t2, "long-text-trimmed-at-the-hyphens-only")
+	nd.Reach("C13.long")
+}
